@@ -304,6 +304,19 @@ pub fn run(ctx: &mut Ctx) {
                     c
                 })
                 .collect();
+            // collision bait for sampled / truncated content hashes: large contents of equal length that differ in
+            // one byte in the middle, only in the first byte, only in the last byte
+            let mut pool = pool;
+            if i % 3 == 0 {
+                let blen = *rng.pick(&[17_000usize, 40_000, 70_000]);
+                let base = rng.bytes(blen);
+                for at in [base.len() / 2, 0, base.len() - 1, 5000, base.len() - 5000] {
+                    let mut c = base.clone();
+                    c[at] ^= 0x40;
+                    pool.push(c);
+                }
+                pool.push(base);
+            }
             let mut ops: Vec<Op> = Vec::with_capacity(nops);
             for j in 0..nops {
                 let r = rng.below(100);
